@@ -54,6 +54,59 @@ impl Engine {
             Op::Validator { user, add, sel } => self.do_validator(user, *add, *sel),
             Op::Ownership { user, act } => self.do_ownership(user, act),
             Op::Advance(t) => self.do_advance(t),
+            Op::Burst(n) => {
+                // n % 3: 0 => stakes to self, every new packet fails; 1 => stakes to one native recipient (two
+                // packets each), every new packet fails; 2 => every new packet is acknowledged successfully
+                // (older in-flight packets are left alone, so the distance between sequences grows)
+                if !self.m.halted {
+                    let mode = *n % 3;
+                    for i in 0..*n {
+                        if self.viol.is_some() {
+                            break;
+                        }
+                        let before: Vec<u64> = self.m.packets.keys().copied().collect();
+                        let to = if mode == 1 { Recip::Native(0) } else { Recip::Sender };
+                        self.do_stake(&Caller::User(i), &Amt::Sci(1 + i as u16, 3), &to, None, &ExpSel::None, &Funds::Exact, None);
+                        let new: Vec<u64> = self.m.packets.keys().copied().filter(|k| !before.contains(k)).collect();
+                        for seq in new {
+                            let inflight: Vec<u64> = self.m.packets.values().filter(|p| p.status == PStatus::Sent).map(|p| p.seq).collect();
+                            if let Some(pos) = inflight.iter().position(|s| *s == seq) {
+                                let hit = (0u8..16).find(|sel| ((*sel as usize) * inflight.len()) >> 4 == pos);
+                                if let Some(sel) = hit {
+                                    let o = if mode == 2 { Outcome::Ack } else if i % 2 == 0 { Outcome::ErrAck } else { Outcome::Timeout };
+                                    self.do_resolve(sel, &o);
+                                }
+                            }
+                        }
+                    }
+                    self.stats.flags.insert("burst");
+                    let staker = self.m.cfg.staker.clone();
+                    let mut per_receiver: std::collections::BTreeMap<(String, String), usize> = Default::default();
+                    for p in self.m.refundable() {
+                        *per_receiver.entry((p.receiver.clone(), p.denom.clone())).or_insert(0) += 1;
+                    }
+                    if per_receiver.values().any(|c| *c > 10) {
+                        self.stats.flags.insert("more_than_10_refundable");
+                    }
+                    let _ = staker;
+                }
+                self.note(format!("burst {n}"));
+            }
+            Op::Churn(n) => {
+                if !self.m.halted {
+                    for i in 0..*n {
+                        if self.viol.is_some() {
+                            break;
+                        }
+                        self.do_unstake(&Caller::User(i), &Amt::Frac(1), &Funds::Exact);
+                        self.do_submit(&Caller::User(i), 2);
+                    }
+                    if self.m.batches.len() > 30 {
+                        self.stats.flags.insert("more_than_30_batches");
+                    }
+                }
+                self.note(format!("churn {n}"));
+            }
             Op::Traffic(n) => {
                 self.ch.background_traffic(*n as u64);
                 self.note(format!("traffic {n}"));
@@ -856,10 +909,11 @@ impl Engine {
             Some(x) => x,
             None => return,
         };
-        if f >= r {
-            // fee == reward accepted by the real code path: adopt only if nothing was forwarded
-            return self.chk(&["C11"], false, || format!("{what}: accepted although fee {f} leaves nothing to restake"));
+        if f > r {
+            return self.chk(&["C11"], false, || format!("{what}: accepted although the fee {f} exceeds the reward"));
         }
+        // f == r: nothing to restake; an implementation may accept such a reward (forwarding nothing) —
+        // the fee must then still reach the treasury or the fee balance, exactly like any other fee
         let rest = r - f;
         self.m.n += rest;
         self.m.rewards += r;
@@ -874,7 +928,8 @@ impl Engine {
         }
         let trs = Engine::transfers(&out);
         let staker = self.m.cfg.staker.clone();
-        self.chk(&["C11", "C01"], trs.len() == 1 && trs[0].1 == staker && trs[0].2 == STAKED_DENOM && trs[0].3 == rest, || {
+        let transfers_ok = if rest == 0 { trs.is_empty() } else { trs.len() == 1 && trs[0].1 == staker && trs[0].2 == STAKED_DENOM && trs[0].3 == rest };
+        self.chk(&["C11", "C01"], transfers_ok, || {
             format!("{what}: transfers {:?}; reference fee floor(rate*r/100000)={f}, restaked {rest}", trs)
         });
         if let Some(t) = trs.first() {
@@ -1085,6 +1140,9 @@ impl Engine {
             let mut set: Vec<u64> = self.m.refundable().filter(|p| p.receiver == receiver).map(|p| p.seq).collect();
             set.sort();
             if paginated == Some(true) {
+                if set.len() > 10 {
+                    self.stats.flags.insert("recover_page_truncated");
+                }
                 set.truncate(10);
             }
             if !dec_ok {
